@@ -119,6 +119,19 @@ pub fn run_tok_case(
     r.map_err(|e| {
         let mut c = case();
         c["observed_tokens"] = toks_json(&toks);
+        // minimize the witness (violation path only; offsets are kept out of it)
+        if offset == 0 && kind != "shrinking" {
+            let mut scratch = Stats::default();
+            let mut still_fails = |c2: &ScannerCfg, i2: &str| {
+                run_tok_case("shrinking", oracle, c2, i2, 0, BuildPath::Uncached, &mut scratch).is_err()
+            };
+            let (mc, mi, calls) = crate::shrink::shrink_cfg_input(cfg, input, &mut still_fails);
+            let what = run_tok_case("shrinking", oracle, &mc, &mi, 0, BuildPath::Uncached, &mut scratch)
+                .err()
+                .map(|v| v.what)
+                .unwrap_or_default();
+            c["minimized"] = json!({"patterns": mc.describe(), "input": mi, "what": what, "cfg": mc, "oracle_calls": calls});
+        }
         Violation::new(e.clone(), c).with_signature(format!("{} {}", shape_tags(cfg), e))
     })
 }
